@@ -2091,6 +2091,9 @@ EbErrorType read_uncompressed_header(Bitstrm *bs, EbDecHandle *dec_handle_ptr, O
     generate_next_ref_frame_map(dec_handle_ptr);
 
     read_tile_info(bs, &frame_info->tiles_info, seq_header, frame_info);
+    if (frame_info->tiles_info.context_update_tile_id >=
+        frame_info->tiles_info.tile_cols * frame_info->tiles_info.tile_rows)
+        return EB_Corrupt_Frame; /* otherwise no tile ever saves the frame's final CDFs */
     read_quantization_params(
         bs, &frame_info->quantization_params, &seq_header->color_config, num_planes);
     read_segmentation_params(bs, dec_handle_ptr, frame_info);
